@@ -59,6 +59,19 @@ partial def y? : Sexp → Option Y
     some (.dict (ps.map (·.1)) (ps.map (·.2)))
   | _ => none
 
+partial def ry? : Sexp → Option RY
+  | .atom "none" => some .none
+  | .atom "junk" => some .junk
+  | .list [.atom "f", r] => (natU? r).map .f
+  | .list (.atom "tup" :: l) => (l.mapM ry?).map .tup
+  | .list (.atom "lst" :: l) => (l.mapM ry?).map .lst
+  | .list (.atom "dict" :: l) => do
+    let ps ← l.mapM fun
+      | .list [k, v] => do some ((← k.nat?), (← ry? v))
+      | _ => none
+    some (.dict (ps.map (·.1)) (ps.map (·.2)))
+  | _ => none
+
 def mode? : Sexp → Option ItemMode
   | .atom "ok" => some .ok
   | .atom "unset" => some .unset
@@ -86,6 +99,7 @@ partial def body? : Sexp → Option Body
   | .list [.atom "lazy", .list [.atom "ok", v], k] => do some (.lazy (.ok (← v.nat?)) (← body? k))
   | .list [.atom "lazy", .list [.atom "err", e], k] => do some (.lazy (.err (← e.nat?)) (← body? k))
   | .list [.atom "yld", y, k, h] => do some (.yld (← y? y) (← body? k) (← body? h))
+  | .list [.atom "reyld", k, h] => do some (.reyld (← body? k) (← body? h))
   | .list [.atom "sync", c, p, k, h] => do some (.sync (← body? c) (← refs? p) (← body? k) (← body? h))
   | .list [.atom "syncfut", r, k, h] => do some (.syncfut (← ref? r) (← body? k) (← body? h))
   | .list [.atom "with", c, b, k] => do some (.withCtx (← ctxKind? c) (← body? b) (← body? k))
@@ -137,13 +151,14 @@ def event? (s : Sexp) : Event :=
   let r : Option Event := match s with
     | .list [.atom "top", i, c] => do some (.top (← i.nat?) (← conv? c))
     | .list [.atom "new", n, .atom "task", c] => do some (.new (← n.nat?) (.task (← optNat? c)))
-    | .list [.atom "new", n, .atom "item", k, q, i] => do some (.new (← n.nat?) (.item (← k.nat?) (← q.nat?) (← i.nat?)))
-    | .list [.atom "new", n, .atom "const"] => do some (.new (← n.nat?) .const)
-    | .list [.atom "new", n, .atom "errfut"] => do some (.new (← n.nat?) .errfut)
+    | .list [.atom "new", n, .atom "item", k, q, i, pl, m] => do
+      some (.new (← n.nat?) (.item (← k.nat?) (← q.nat?) (← i.nat?) (← pl.nat?) (← mode? m)))
+    | .list [.atom "new", n, .atom "const", v] => do some (.new (← n.nat?) (.const (← v.nat?)))
+    | .list [.atom "new", n, .atom "errfut", e] => do some (.new (← n.nat?) (.errfut (← e.nat?)))
     | .list [.atom "new", n, .atom "lazy"] => do some (.new (← n.nat?) .lazy)
     | .list [.atom "run", t, i, dc, .atom "start"] => do some (.run (← natU? t) (← i.nat?) (← dc.bool?) .start)
     | .list [.atom "run", t, i, dc, o] => do some (.run (← natU? t) (← i.nat?) (← dc.bool?) (.out (← outcome? o)))
-    | .list [.atom "yield", t, i, l] => do some (.yield (← natU? t) (← i.nat?) (← natsU? l))
+    | .list [.atom "yield", t, i, y] => do some (.yield (← natU? t) (← i.nat?) (← ry? y))
     | .list [.atom "done", f, o] => do some (.done (← natU? f) (← outcome? o))
     | .list [.atom "bdone", b, ok] => do let (k, q) ← pair? b; some (.bdone k q (← ok.bool?))
     | .list [.atom "flushB", b, its, p, .list pend] => do
@@ -153,12 +168,15 @@ def event? (s : Sexp) : Event :=
     | .list [.atom "flushE", b] => do let (k, q) ← pair? b; some (.flushE k q)
     | .list [.atom "ctx", .atom "R", c] => do some (.ctx true (← c.nat?))
     | .list [.atom "ctx", .atom "P", c] => do some (.ctx false (← c.nat?))
+    | .list [.atom "ctxN", c, t, k] => do some (.ctxN (← c.nat?) (← natU? t) (← ctxKind? k))
+    | .list [.atom "ctxX", c] => do some (.ctxX (← c.nat?))
     | .list [.atom "active", t, a] => do some (.active (← natU? t) (← optNat? a))
     | .list [.atom "read", t, v, x] => do some (.read (← natU? t) (← v.nat?) (← val? x))
     | .list [.atom "syncE", t, f] => do some (.syncE (← natU? t) (← natU? f))
     | .list [.atom "syncX", t, f, o] => do some (.syncX (← natU? t) (← natU? f) (← outcome? o))
     | .list [.atom "ret", o] => do some (.ret (← outcome? o))
-    | .list [.atom "sched", same, n, m, a] => do some (.sched (← same.bool?) (← n.nat?) (← m.nat?) (← optNat? a))
+    | .list [.atom "sched", same, n, m, l, a] => do
+      some (.sched (← same.bool?) (← n.nat?) (← m.nat?) (← l.nat?) (← optNat? a))
     | .list (.atom "svals" :: l) => do
       let ps ← l.mapM fun
         | .list [k, v] => do some ((← k.nat?), (← val? v))
@@ -185,6 +203,18 @@ def outStr : Outcome → String
   | .ok v => s!"(ok {valStr v})"
   | .err e => s!"(err {errStr e})"
 
+def modeStr : ItemMode → String
+  | .ok => "ok" | .unset => "unset" | .err e => s!"(err {e})"
+def ctxKindStr : CtxKind → String
+  | .plain => "(plain)" | .override a b => s!"(override {a} {b})"
+partial def ryStr : RY → String
+  | .none => "none"
+  | .junk => "junk"
+  | .f r => s!"(f {r})"
+  | .tup l => "(" ++ " ".intercalate ("tup" :: l.map ryStr) ++ ")"
+  | .lst l => "(" ++ " ".intercalate ("lst" :: l.map ryStr) ++ ")"
+  | .dict ks vs => "(" ++ " ".intercalate ("dict" :: (ks.zip vs).map fun (k, v) => s!"({k} {ryStr v})") ++ ")"
+
 def natsStr (l : List Nat) : String := "(" ++ " ".intercalate (l.map toString) ++ ")"
 def optStr : Option Nat → String
   | none => "none"
@@ -194,13 +224,13 @@ def b01 (b : Bool) : String := if b then "1" else "0"
 def eventStr : Event → String
   | .top i c => s!"(top {i} {match c with | .value => "value" | .call => "call"})"
   | .new n (.task c) => s!"(new {n} task {optStr c})"
-  | .new n (.item k q i) => s!"(new {n} item {k} {q} {i})"
-  | .new n .const => s!"(new {n} const)"
-  | .new n .errfut => s!"(new {n} errfut)"
+  | .new n (.item k q i pl m) => s!"(new {n} item {k} {q} {i} {pl} {modeStr m})"
+  | .new n (.const v) => s!"(new {n} const {v})"
+  | .new n (.errfut e) => s!"(new {n} errfut {e})"
   | .new n .lazy => s!"(new {n} lazy)"
   | .run t i dc .start => s!"(run {t} {i} {b01 dc} start)"
   | .run t i dc (.out o) => s!"(run {t} {i} {b01 dc} {outStr o})"
-  | .yield t i l => s!"(yield {t} {i} {natsStr l})"
+  | .yield t i y => s!"(yield {t} {i} {ryStr y})"
   | .done f o => s!"(done {f} {outStr o})"
   | .bdone k q ok => s!"(bdone ({k} {q}) {b01 ok})"
   | .flushB k q its p pend =>
@@ -209,12 +239,14 @@ def eventStr : Event → String
   | .flushI k q its => s!"(flushI ({k} {q}) {natsStr its})"
   | .flushE k q => s!"(flushE ({k} {q}))"
   | .ctx r c => s!"(ctx {if r then "R" else "P"} {c})"
+  | .ctxN c t k => s!"(ctxN {c} {t} {ctxKindStr k})"
+  | .ctxX c => s!"(ctxX {c})"
   | .active t a => s!"(active {t} {optStr a})"
   | .read t v x => s!"(read {t} {v} {valStr x})"
   | .syncE t f => s!"(syncE {t} {f})"
   | .syncX t f o => s!"(syncX {t} {f} {outStr o})"
   | .ret o => s!"(ret {outStr o})"
-  | .sched same n m a => s!"(sched {b01 same} {n} {m} {optStr a})"
+  | .sched same n m l a => s!"(sched {b01 same} {n} {m} {l} {optStr a})"
   | .svals l => "(" ++ " ".intercalate ("svals" :: l.map fun (k, v) => s!"({k} {valStr v})") ++ ")"
   | .bad s => s!"(bad {s})"
 
